@@ -118,6 +118,9 @@ func Run(c *hx.Ctx) {
 		run(c, in)
 	}
 
+	// ---- decode history: verdicts must not depend on earlier frames ----
+	w.history()
+
 	// ---- WriteMessage ----
 	k := c.N(18, 200)
 	for i := 0; i < k; i++ {
